@@ -498,6 +498,10 @@ def run():
                      "the Lowerer machine was NOT compared with the code" % nohook, {"programs_without_trace": nohook}, no_input=True)
     for why, cnt in hook_missing.items():
         ck.violation("%s: %d trace(s) could not be replayed -- the Lowerer machine was NOT compared with the code" % (why, cnt), {"reason": why, "programs": cnt}, no_input=True)
+    # the replay evaluates four verdicts per trace inside Coq: every accepted program in the quick tier, the first 5000 in the thorough tier
+    if len(cases) > 5000:
+        ck.coverage["op_trace_not_replayed_in_this_tier"] = len(cases) - 5000
+        cases = cases[:5000]
     trace_ok = 0
     have_lookups = any(c16_trace.has_lookup_hook(c[4]["ops"]) for c in cases)
     if cases and not have_lookups:
@@ -505,6 +509,11 @@ def run():
                      "with lookup_cid_m, and where out-of-scope ids enter was not established" % len(cases), {"traces": len(cases)}, no_input=True)
     else:
         ck.coverage["lookup_reads_compared"] = sum(c[1].count("(BLookup ") + c[1].count("(BLookupAll ") for c in cases)
+        nsel = sum(c[1].count("(BSelectedAll ") for c in cases)
+        ck.coverage["selected_all_compared"] = nsel
+        if not nsel and any("select !{" in c[0] or "select {!" in c[0] for c in cases):
+            ck.violation("no `selected_all` event although %d program(s) use `select !{..}` (hooks/selected-all.diff is not in this tree): find_selected_all was NOT compared "
+                         "with retain_m" % sum(1 for c in cases if "select !{" in c[0]), {"traces": len(cases)}, no_input=True)
     if coq_ok:
         try:
             # both verdicts of one trace in one expression (the term is parsed once).  The frames of OEndTable / OEndInline are
